@@ -143,7 +143,7 @@ func (fr *Frame) appendOp(st *State, s, t *Term, elem types.Type, tIsString bool
 		content = base
 		tc := Select(heap, SArr(t))
 		for i := int64(0); i < lit.Int64(); i++ {
-			content = Store(content, Add(Add(off, SLen(s)), IntLit(i)), Select(tc, Add(SOff(t), IntLit(i))))
+			content = ex.slUpd(content, off, Add(SLen(s), IntLit(i)), ex.slAt(tc, SOff(t), IntLit(i)))
 		}
 	} else {
 		// general case: fresh content constrained pointwise
@@ -175,7 +175,7 @@ func (ex *Exec) shiftCopy(src, off, ln *Term, es string) *Term {
 	fc := ex.ctx.Fresh("copy", ArraySort(SInt, es))
 	j := Bound{Name: ex.boundName("j"), Sort: SInt}
 	jv := V(j.Name, SInt)
-	ex.assumeGlobal(Forall([]Bound{j}, Implies(And(Le(IntLit(0), jv), Lt(jv, ln)), Eq(Select(fc, jv), Select(src, Add(off, jv))))))
+	ex.assumeGlobal(Forall([]Bound{j}, Implies(And(Le(IntLit(0), jv), Lt(jv, ln)), Eq(ex.slAt(fc, IntLit(0), jv), ex.slAt(src, off, jv)))))
 	return fc
 }
 
